@@ -7,6 +7,7 @@ import GscribModel.Drv.Writers
 import GscribModel.Drv.Report
 import GscribModel.Drv.Transform
 import GscribModel.Drv.Format
+import GscribModel.Drv.Tracer
 /-! Line-protocol driver: `driver <mode>` (or `lake env lean --run Driver.lean <mode>`) reads one
     case/operation per line on stdin and prints exactly one record per line (`bad-op …` for an
     unparsable line).  Each mode lives in `GscribModel/Drv/<Mode>.lean`. -/
@@ -23,4 +24,5 @@ def main (args : List String) : IO UInt32 := do
   | ["report"] => ReportDrv.main; return 0
   | ["transform"] => TransformDrv.main; return 0
   | ["format"] => FormatDrv.main; return 0
+  | ["tracer"] => TracerDrv.main; return 0
   | _ => IO.eprintln s!"unknown mode {args}"; return 2
